@@ -1188,6 +1188,23 @@ impl World {
         }
     }
 
+    /// Like `barrier`, but gives up (false) after `max_calls` synchronous hot_reload round trips.
+    pub fn barrier_bounded(&mut self, max_calls: u32) -> bool {
+        self.sentinel_version += 1;
+        let before = self.sentinel_id();
+        self.src.tree().put(SENTINEL, "la", format!("ok:S{}", self.sentinel_version).into_bytes(), Variant::Buffer);
+        self.src.send(&OwnedEntry::File(SENTINEL.to_string(), "la".to_string()));
+        for _ in 0..max_calls {
+            self.cache.hot_reload();
+            self.barrier_calls += 1;
+            if self.sentinel_id() != before {
+                return true;
+            }
+            std::thread::yield_now();
+        }
+        false
+    }
+
     pub fn trees(&self) -> HashMap<u32, Tree> {
         let mut m = HashMap::new();
         m.insert(self.tag, self.src.tree().clone());
